@@ -19,8 +19,11 @@ import (
 
 	"sigs.k8s.io/yaml"
 
+	"helm.sh/helm/v4/pkg/action"
 	"helm.sh/helm/v4/pkg/chart/v2/loader"
 	chartutil "helm.sh/helm/v4/pkg/chart/v2/util"
+	helmcmd "helm.sh/helm/v4/pkg/cmd"
+	"helm.sh/helm/v4/pkg/cmd/search"
 	"helm.sh/helm/v4/pkg/ignore"
 	"helm.sh/helm/v4/pkg/lint"
 	"helm.sh/helm/v4/pkg/plugin"
@@ -623,6 +626,18 @@ func c20RunExplore(e *c20ExploreC, step *string) (accepted bool) {
 			other.Merge(idx)
 			idx.SortEntries()
 		}
+		*step = "search.Index.AddRepo"
+		for _, all := range []bool{false, true} {
+			si := search.NewIndex()
+			si.AddRepo("r", idx, all)
+			*step = "search.Index.Search/All"
+			si.All()
+			res, _ := si.Search("a", 25, false)
+			search.SortScore(res)
+			res, _ = si.Search(".*", 25, true)
+			search.SortScore(res)
+		}
+		c20HelmSearchRepo(step, e.Data)
 		*step = "IndexFile.WriteFile"
 		d, _ := os.MkdirTemp("", "c20w")
 		idx.WriteFile(filepath.Join(d, "out.yaml"), 0o644)
@@ -779,4 +794,28 @@ func c20ExecExplore(e *c20ExploreC) c20Obs {
 		obs.Class = "err"
 	}
 	return obs
+}
+
+// c20HelmSearchRepo runs `helm search repo` (newest only, --versions, --regexp, json output)
+// through the real root command over a repository cache that holds the given index bytes.
+func c20HelmSearchRepo(step *string, index []byte) {
+	d, err := os.MkdirTemp("", "c20search")
+	if err != nil {
+		return
+	}
+	defer os.RemoveAll(d)
+	os.WriteFile(filepath.Join(d, "repositories.yaml"), []byte("apiVersion: \"\"\nrepositories:\n- name: r\n  url: https://example.invalid/charts\n"), 0o644)
+	os.MkdirAll(filepath.Join(d, "cache"), 0o755)
+	os.WriteFile(filepath.Join(d, "cache", "r-index.yaml"), index, 0o644)
+	oldCfg, oldCache := os.Getenv("HELM_REPOSITORY_CONFIG"), os.Getenv("HELM_REPOSITORY_CACHE")
+	os.Setenv("HELM_REPOSITORY_CONFIG", filepath.Join(d, "repositories.yaml"))
+	os.Setenv("HELM_REPOSITORY_CACHE", filepath.Join(d, "cache"))
+	defer func() {
+		os.Setenv("HELM_REPOSITORY_CONFIG", oldCfg)
+		os.Setenv("HELM_REPOSITORY_CACHE", oldCache)
+	}()
+	for _, args := range [][]string{{"search", "repo"}, {"search", "repo", "-l", "a"}, {"search", "repo", "--regexp", "^r/.*", "-o", "json"}, {"search", "repo", "--version", ">0.0.0-0", "--devel"}} {
+		*step = "helm " + strings.Join(args, " ")
+		helmcmd.VerifRunCmd(args, &action.Configuration{})
+	}
 }
